@@ -153,6 +153,19 @@ fn interesting_sats(rng: &mut Rng, n: usize) -> Vec<u64> {
   v
 }
 
+/// (height, offset in block) of sat x < SUPPLY, by walking the epochs (no implementation code)
+fn block_of(x: u64) -> (u64, u64) {
+  let mut start = 0u64;
+  for e in 0..33u64 {
+    let sub = (50u64 * 100_000_000) >> e;
+    if x < start + HALVING * sub {
+      return (e * HALVING + (x - start) / sub, (x - start) % sub);
+    }
+    start += HALVING * sub;
+  }
+  unreachable!("x < SUPPLY")
+}
+
 fn sat_strings(rng: &mut Rng, n: usize) -> Vec<String> {
   let mut v: Vec<String> = [
     "", "0", "+0", "-0", "2099999997689999", "2099999997690000", "18446744073709551615", "18446744073709551616", "a", "nvtdijuwxlp",
@@ -172,12 +185,13 @@ fn sat_strings(rng: &mut Rng, n: usize) -> Vec<String> {
   .collect();
   let sats = interesting_sats(rng, n / 8);
   for &x in &sats {
-    let sat = Sat(x);
     v.push(x.to_string());
-    v.push(sat.name());
-    v.push(sat.decimal().to_string());
-    v.push(sat.degree().to_string());
-    v.push(sat.percentile());
+    // the four printed notations, built without the implementation
+    v.push(c32::name_of(u128::from(SUPPLY - x) - 1).to_ascii_lowercase());
+    let (h, third) = block_of(x);
+    v.push(format!("{h}.{third}"));
+    v.push(format!("{}°{}′{}″{}‴", h / (6 * HALVING), h % HALVING, h % 2016, third));
+    v.push(format!("{}%", (x as f64 / (SUPPLY - 1) as f64) * 100.0));
   }
   for i in 0..n {
     let s = match i % 6 {
